@@ -246,12 +246,12 @@ impl PropCase for Misc {
                 Err(()) => ctx.bump("encode_oom_value"),
             }
         }
-        let es = run_encode_streaming(s, (s.len() % 3) as u8, 16);
+        let es = run_encode_streaming(s, (s.len() % 3) as u8, 300);
         ensure!(!es.hit_bound, "encode_streaming-ends", "iterator ends", "still yielding after 2|p|+64 items");
         ensure!(
             es.late.is_empty(),
             "encode_streaming-ends",
-            "None on each of 16 polls after the end",
+            "None on each of 300 polls after the end",
             format!("yielded {:02x?}", es.late)
         );
         // (iv) s as a stream through F2..F6, readers with read/next mixed and called past EOF
